@@ -15,7 +15,7 @@ def build(ctx):
 def run(ctx):
     exes = build(ctx)
     th = ctx.tier == "thorough"
-    ctx.fan(exes["h_table"], "c09", 40000 if th else 1500, timeout=120)
+    ctx.fan(exes["h_table"], "c09", 40000 if th else 3000, timeout=120)
     s = ctx.stats
     ctx.assumptions += ["trusted: harness/refdec.c (own varint, CRC-32C, block parser; zlib/snappy/lz4/zstd called directly)",
                         "the converse block-size rule ('must close as soon as the estimate reaches the limit') is not stated and not demanded",
@@ -24,7 +24,7 @@ def run(ctx):
     return ctx.finish(
         rule="every file emitted by the real writer for the C01 generator is decoded by the independent decoder and validated rule by rule; distinct = distinct (content, configuration) hashes",
         evaluations=s.get("c09.files_validated", 0),
-        floors={"c09.files_validated": 1000, "c09.multi_block_files": 200, "c09.separators_checked": 2000, "c09.separators_shortened": 200,
+        floors={"c09.files_validated": 2500, "c09.multi_block_files": 200, "c09.separators_checked": 2000, "c09.separators_shortened": 200,
                 "c09.rule.block_closed_only_at_limit": 2000, "c09.rule.multi_entry_block_within_size": 2000, "c09.rule.restart_cadence": 50000,
                 "c09.multibyte_shared_varint": 50, "c09.multibyte_vlen_varint": 200, "c09.single_entry_blocks": 50, "c09.files_with_foreign_prefix": 100},
         extra={"programs": s.get("c09.files_validated", 0), "disagreements_checked": sum(rules.values()), "rule_checks": rules,
